@@ -132,6 +132,14 @@ type Plan struct {
 	Input []byte `json:"input,omitempty"`
 	// Case is a fully explicit case for enumeration tiers (no tape involved).
 	Case json.RawMessage `json:"case,omitempty"`
+	// History: the runs the same process executed before this one (batch seed, first index,
+	// stride). When HistoryOn is set, a replay first re-executes them, silently, in the replaying
+	// process: for a violation that depends on what the process has seen before (a table that
+	// fills up over thousands of calls), the run alone does not reproduce, the process does.
+	HistorySeed   uint64 `json:"history_seed,omitempty"`
+	HistoryFrom   uint64 `json:"history_from,omitempty"`
+	HistoryStride uint64 `json:"history_stride,omitempty"`
+	HistoryOn     bool   `json:"history_on,omitempty"`
 	// Expect is filled in by the minimiser: what a replay must reproduce.
 	Expect *Expect `json:"expect,omitempty"`
 	// Human-readable rendering of the minimised case (not used for replay).
